@@ -82,6 +82,20 @@ PROPOSED_KNOWN = [
     _k("lexer.scan ignores end tags (inside a single-quoted attribute value of an end tag)", root=_root(slot="end-tag-sq")),
     _k("scanAttribute rejects a quote or `=` as first byte of an attribute name and skips it; the tokenizer starts an attribute there (`<a \"\"=v`)",
        root=_root(ctx="Tag", slot="attr-name", toctx="Tag", to="attr-unq")),
+    _k("event-handler attributes (on...) are lexed and escaped as plain attribute values, but after character-reference decoding their value is JavaScript (`&#39;` is a quote again)",
+       root=_root(tokind="event")),
+    _k("style attributes are lexed and escaped as plain attribute values, but after character-reference decoding their value is CSS",
+       root=_root(tokind="style")),
+    _k("script elements with another JavaScript MIME type than text/javascript (application/javascript, ...) are scripts for the browser; lexer.scan treats their content as HTML",
+       root=_root(toctx="HTML", to="js-code")),
+    _k("the content of a script element that is a data block (type=\"text/plain\") is lexed as HTML by lexer.scan (tags and attributes in it change the context); for the tokenizer it is script data up to </script>",
+       root=_root(slot="script-data")),
+    _k("the content of a style element with an unknown type is lexed as HTML by lexer.scan; for the tokenizer it is raw text up to </style>",
+       root=_root(slot="style-data")),
+    _k("lexer.scan does not know CSS comments, url( ) tokens and backslash escapes in CSS code: quotes inside them open strings for it",
+       root=_root(slot="css-code")),
+    _k("scanTag ends a tag name at `{`; for the tokenizer the name goes on (`<x${=`)",
+       root=_root(slot="tag-name")),
     _k("a value shown inside a JavaScript block comment is written as a quoted string that keeps `*/`",
        root="none", ctx="JS", slot="js-comment-block"),
     _k("an empty value shown as a whole unquoted attribute value leaves `name=` followed by the next attribute, which becomes its value",
